@@ -37,6 +37,10 @@ def run_cases(cases, res, stratum):
             # the other ways of selecting a prefix / padding, and the numeral with a binary point
             obs['bin_prefix_true'] = x.bin(prefix=True); obs['hex_prefix_true'] = x.hex(prefix=True); obs['hex_nopad'] = x.hex(padding=False)
             obs['base2_dot'] = x.base_repr(2, frac_dot=True)
+            # the unpadded hex numeral fed back raw restores the code (constructor and set_val)
+            if n >= 2: yb = fx.Fxp(None, s, n, nf); yb.set_val(obs['hex_nopad'], raw=True); yc = fx.Fxp(obs['hex_nopad'], s, n, nf, raw=True)      # (as for the configured prefixes below: words of 2 bits and more)
+            if n >= 2 and (lib.codes_of(yb) != [code] or lib.codes_of(yc) != [code]):
+                res.fail(c, 'C11: the unpadded hex numeral (hex(padding=False)) fed back raw does not restore the code', expected=code, got=(obs['hex_nopad'], lib.codes_of(yb), lib.codes_of(yc))); continue
             xc = A.mk(fx, np, s, n, nf, code)
             import io, contextlib
             with contextlib.redirect_stdout(io.StringIO()):          # the setters print a warning for unusual prefixes
